@@ -54,6 +54,7 @@ fixed("FX-C02-04", "C02", "3851b65", "null into a non-nil []byte left the old by
 fixed("FX-C07-03", "C07", "3851b65", "null into a pre-populated []byte field kept the old bytes (was KF-C07-01 / KF-C02-05)")
 fixed("FX-C04-01", "C04", "57be1d1", "own output > 512 bytes with an escaped struct key decoded with Unmarshal but not with Decoder (was KF-C04-STREAM / KF-C02-07 / KF-C02-07b; completed by b177bea, 17431c1, 9207e74)")
 fixed("FX-C06-06", "C06", "32c4673", "Decoder.Decode({\"f\":\"{\\\"A\\\":1}\"}) into struct{F *In `json:\"f,string\"`} panicked (nil pointer dereference in structDecoder.Decode: wrappedStringDecoder.DecodeStream built a RuntimeContext without Option)")
+fixed("FX-C02-05", "C02", "291bc67", "Unmarshal(\"[1e39]\", &[]float32) = nil, [+Inf] (encoding/json: UnmarshalTypeError); was KF-C02-03; literals near a float32 rounding midpoint were rounded twice")
 fixed("FX-C15-01", "C15", "57be1d1", "Decoder fed 5-byte chunks failed on fully \\u-escaped keys")
 
 fixed("FX-C06-04", "C06", "0243e9f", "Compact/Indent of a 100000-deep tower: fatal out of memory / stack overflow (no nesting limit)")
@@ -327,9 +328,6 @@ known("KF-C02-01", "C02", D, None, r"err-vs-ok", r"go:syntax:strconv\.ParseFloat
 known("KF-C02-02", "C02", D, None, r"err-vs-ok", r"go:syntax:strconv\.ParseFloat: parsing : value out of range @ doc:[a-z-]+(\+prepop)? @ .*",
       'Unmarshal("1e400", &json.Number) fails (encoding/json keeps the literal)', "internal/decoder/number.go validates json.Number literals with strconv.ParseFloat and treats ErrRange as an error",
       "other out-of-float64-range literals into json.Number / UseNumber", "see KF-C05-12")
-known("KF-C02-03", "C02", D, None, r"ok-vs-err", r"ref:type:number->float32 @ doc:[a-z-]+(\+prepop)? @ .*",
-      'Unmarshal("[1e39]", &[]float32) = nil, [+Inf] (encoding/json: UnmarshalTypeError)', "internal/decoder/float.go: ParseFloat(s, 64) then float32() conversion without range check",
-      "other literals beyond float32 accepted into float32", "candidate for a small fix (ParseFloat with bitSize 32)")
 known("KF-C02-04", "C02", D, r"Decoder.*", r"stream-differs-from-buffer", r"ok-vs-err:ref:type:number->u?int(8|16|32|64|ptr)? @ doc.* @ .*",
       'NewDecoder("-327680e-1").Decode(&int) = nil (stores the digit prefix); Unmarshal reports the error', "see KF-C16-03 (stream position)", "see KF-C16-03", "see KF-C16-03")
 known("KF-C02-04b", "C02", D, r"Decoder.*", r"ok-vs-err", r"ref:type:number->u?int(8|16|32|64|ptr)? @ doc:[a-z-]+(\+prepop)? @ .*",
